@@ -8,8 +8,15 @@ This printer pair is the trusted glue between the two worlds (DESIGN.md 1.3).
 Expressions: ("lit", v) ("var", name) ("drange", e, e) ("uniform", [e..])
              ("discrete", [(e, w)..]) ("resample", e) ("bin", op, e, e) ("un", op, e)
              ("call", fn, [e..], [(kw, e)..])
+  containers / attributes / star-unpacking (container_core, C01 only):
+             ("tuni", kind, [[e..]..])  Uniform over tuples ("t") / lists ("l") of equal length -- a HANDLE,
+                                        only usable through a name: ("tidx", ("var", u), e) = u[e],
+                                        ("starcall", fn, ("var", u)) = fn(*u)
+             ("vec", e, e) ("vadd"|"vsub", V, V) -- vector handles; ("vattr", V, "x"|"y") = V.x / V.y
+             ("gparam", name) = globalParameters.name   ("tlit", [e..], j) = (e, .., e)[j] (plain Python)
 Conditions:  ("cmp", op, e, e) ("and", c, c) ("or", c, c) ("not", c)
 Statements:  ("let", name, e) ("param", name, e) ("require", Fraction|None, c) ("object", e)
+             ("objecttup", kind, [e..])  an object whose property foo is the tuple / list of the expressions
 """
 
 import random
@@ -57,6 +64,24 @@ def expr_text(e):
     if t == "call":
         args = [expr_text(x) for x in e[2]] + [f"{k}={expr_text(x)}" for k, x in e[3]]
         return f"{e[1]}({', '.join(args)})"
+    if t == "tuni":
+        br = "()" if e[1] == "t" else "[]"
+        tail = "," if e[1] == "t" else ""   # (x,) is a tuple, (x) is not
+        return "Uniform(" + ", ".join(br[0] + ", ".join(expr_text(x) for x in row) + tail + br[1] for row in e[2]) + ")"
+    if t == "tidx":
+        return f"{expr_text(e[1])}[{expr_text(e[2])}]"
+    if t == "starcall":
+        return f"{e[1]}(*{expr_text(e[2])})"
+    if t == "vec":
+        return f"({expr_text(e[1])} @ {expr_text(e[2])})"
+    if t in ("vadd", "vsub"):
+        return f"({expr_text(e[1])} {'+' if t == 'vadd' else '-'} {expr_text(e[2])})"
+    if t == "vattr":
+        return f"{expr_text(e[1])}.{e[2]}"
+    if t == "gparam":
+        return f"globalParameters.{e[1]}"
+    if t == "tlit":
+        return "(" + ", ".join(expr_text(x) for x in e[1]) + f",)[{e[2]}]"
     raise ValueError(e)
 
 
@@ -88,6 +113,11 @@ def to_scenic(ast):
             # (a program may assign `ego` several times: every object stays in the scene, `ego` names the last)
             at = "" if nobj == 0 else f"at ({10 * nobj}, 0), "
             lines.append(f"ego = new Object {at}with foo {expr_text(s[1])}")
+            nobj += 1
+        elif s[0] == "objecttup":
+            at = "" if nobj == 0 else f"at ({10 * nobj}, 0), "
+            br = "()" if s[1] == "t" else "[]"
+            lines.append(f"ego = new Object {at}with foo {br[0]}{', '.join(expr_text(x) for x in s[2])}{',' if br[0] == '(' else ''}{br[1]}")
             nobj += 1
     return "\n".join(lines) + "\n"
 
@@ -218,6 +248,73 @@ def to_prog(ast, max_iter):
                 if isconst(c) and isconst(a) and isconst(b):
                     return const(cval(a) if cval(c) else cval(b))
                 return node("ite", a=[c, a, b], lo=min(rng_[a][0], rng_[b][0]), hi=max(rng_[a][1], rng_[b][1]))
+        if t == "gparam":
+            if "param:" + e[1] not in env:
+                raise IllFormed("no such param yet")
+            return env["param:" + e[1]]
+        if t == "tuni":     # a handle: (index node, rows of element nodes); the index is drawn once per scene
+            rows = [[ev(x) for x in row] for row in e[2]]
+            if len({len(r) for r in rows}) != 1:
+                raise IllFormed("ragged")
+            if all(isconst(n) for r in rows for n in r):
+                raise IllFormed("constant options are not lifted element-wise")
+            idx = node("drange", a=[const(0), const(len(rows) - 1)], lo=0, hi=len(rows) - 1)
+            return ("T", idx, rows)
+        if t == "tidx":
+            h = ev(e[1])
+            if not (isinstance(h, tuple) and h[0] == "T"):
+                raise IllFormed("index of a non-container")
+            _T, idx, rows = h
+            m = len(rows[0])
+            i2 = ev(e[2])
+            if rng_[i2][0] < -m or rng_[i2][1] >= m:
+                raise IllFormed("index out of range")
+            flat = [n for r in rows for n in r]
+            return node("sel2", a=[idx, i2] + flat, c=[m], lo=min(rng_[n][0] for n in flat), hi=max(rng_[n][1] for n in flat))
+        if t == "starcall":
+            h = ev(e[2])
+            if not (isinstance(h, tuple) and h[0] == "T") or e[1] not in ("vmin", "vmax", "vite"):
+                raise IllFormed("starcall")
+            _T, idx, rows = h
+            m = len(rows[0])
+            if (e[1] == "vite" and m not in (2, 3)) or (e[1] != "vite" and m not in (1, 2)):
+                raise IllFormed("arity")
+            flat = [n for r in rows for n in r]
+            lo, hi = min(rng_[n][0] for n in flat), max(rng_[n][1] for n in flat)
+            els = [node("sel2", a=[idx, const(j)] + flat, c=[m], lo=lo, hi=hi) for j in range(m)]
+            if e[1] == "vite":
+                els = els + [const(0)] * (3 - m)
+                return node("ite", a=els, lo=min(lo, 0), hi=max(hi, 0))
+            els = els + [const(0)] * (2 - m)
+            f = min if e[1] == "vmin" else max
+            return node(e[1][1:], a=els, lo=f(lo, 0) if m == 1 else lo, hi=f(hi, 0) if m == 1 else hi)
+        if t == "vec":
+            return ("V", ev(e[1]), ev(e[2]))
+        if t in ("vadd", "vsub"):
+            a, b = ev(e[1]), ev(e[2])
+            if not all(isinstance(h, tuple) and h[0] == "V" for h in (a, b)):
+                raise IllFormed("vector op of non-vectors")
+            comp = []
+            for x, y in ((a[1], b[1]), (a[2], b[2])):
+                if isconst(x) and isconst(y):
+                    comp.append(const(cval(x) + cval(y) if t == "vadd" else cval(x) - cval(y)))
+                else:
+                    (xl, xh), (yl, yh) = rng_[x], rng_[y]
+                    lo, hi = (xl + yl, xh + yh) if t == "vadd" else (xl - yh, xh - yl)
+                    comp.append(node("add" if t == "vadd" else "sub", a=[x, y], lo=lo, hi=hi))
+            return ("V", comp[0], comp[1])
+        if t == "vattr":
+            h = ev(e[1])
+            if not (isinstance(h, tuple) and h[0] == "V"):
+                raise IllFormed("attribute of a non-vector")
+            x, y = (h[1], h[2]) if e[2] == "x" else (h[2], h[1])
+            if isconst(x) and isconst(y):
+                return x
+            # the attribute of a random vector depends on the whole vector: both components are sampled
+            return node("pick", a=[x, y], lo=rng_[x][0], hi=rng_[x][1])
+        if t == "tlit":
+            els = [ev(x) for x in e[1]]
+            return els[e[2]]
         raise IllFormed(repr(e))
 
     def evc(c):
@@ -247,12 +344,16 @@ def to_prog(ast, max_iter):
         return acc
 
     obj_roots, param_roots, req_roots = [], [], []
+    nobjs = [0]
     outs, outnames, reqs = [], [], []
     for s in ast:
         if s[0] == "let":
             env[s[1]] = ev(s[2])
         elif s[0] == "param":
             n = ev(s[2])
+            if isinstance(n, tuple):
+                raise IllFormed("handle as a parameter")
+            env["param:" + s[1]] = n
             param_roots.append(n)
             outs.append(n)
             outnames.append(["param", s[1]])
@@ -261,9 +362,21 @@ def to_prog(ast, max_iter):
             env["ego.foo"] = n
             # (the index of the object is given only from the second object on: single-object programs, which
             #  other checks consume too, keep the two-element form)
-            outnames.append(["prop", "foo"] if not obj_roots else ["prop", "foo", len(obj_roots)])
+            if isinstance(n, tuple):
+                raise IllFormed("handle as a property")
+            outnames.append(["prop", "foo"] if not nobjs[0] else ["prop", "foo", nobjs[0]])
+            nobjs[0] += 1
             obj_roots.append(n)
             outs.append(n)
+        elif s[0] == "objecttup":
+            ns = [ev(x) for x in s[2]]
+            if any(isinstance(n, tuple) for n in ns):
+                raise IllFormed("handle as an element")
+            for j, n in enumerate(ns):
+                outnames.append(["propidx", "foo", nobjs[0], j])
+                outs.append(n)
+            nobjs[0] += 1
+            obj_roots.extend(ns)
         elif s[0] == "require":
             c = evc(s[2])
             pr = Fraction(1) if s[1] is None else Fraction(s[1])
@@ -530,6 +643,72 @@ def exhaustive_core():
                         try:
                             prog, info = to_prog(ast, 1)
                         except IllFormed:
+                            continue
+                        cells = 2 if pr is not None else 1
+                        prog["maxIter"] = choose_max_iter(info, cells)
+                        info["thresholds"] = [str(pr)] if pr is not None else []
+                        info["ast"] = repr(ast)
+                        out.append((to_scenic(ast), prog, info))
+    return out
+
+
+def container_core():
+    """Containers, attributes, star-unpacking and dependent global parameters (the forms the property's
+    quantifier names beyond scalar operators): Uniform over tuples / lists with random elements indexed by
+    constant, negative and random indices (the index of the Uniform is drawn ONCE however often the
+    container is used), `f(*u)`, coordinates of random vectors and of their sums, `globalParameters.p`
+    feeding later draws, objects whose property is a tuple / list of random values; each with requirement
+    forms over the derived values, hard and soft, and with the container name rebound after the `require`."""
+    X, Y, U = ("var", "x"), ("var", "y"), ("var", "u")
+    L = lambda v: ("lit", v)
+    DR = lambda a, b: ("drange", L(a), L(b))
+    heads = [
+        [("let", "x", DR(0, 1)), ("let", "y", DR(1, 2))],
+        [("let", "x", DR(0, 2)), ("let", "y", ("drange", X, L(2)))],
+        [("let", "x", ("discrete", [(L(0), 1), (L(3), 2)])), ("let", "y", ("resample", X))],
+    ]
+    bodies = []
+    for kind in ("t", "l"):
+        bodies += [
+            # two uses of one container: the same row must be selected in both
+            [("let", "u", ("tuni", kind, [[X, Y], [Y, L(7)]])), ("param", "a", ("tidx", U, L(0))), ("param", "b", ("tidx", U, L(1)))],
+            [("let", "u", ("tuni", kind, [[X, L(4)], [L(5), Y]])), ("let", "i", DR(0, 1)), ("param", "a", ("tidx", U, ("var", "i"))),
+             ("param", "b", ("tidx", U, L(-1)))],
+            [("let", "u", ("tuni", kind, [[X, Y], [Y, X], [L(0), L(9)]])), ("param", "a", ("starcall", "vmax", U)),
+             ("param", "b", ("tidx", U, ("drange", L(-2), L(1))))],
+            [("let", "u", ("tuni", kind, [[X, Y, L(3)], [L(0), X, Y]])), ("param", "a", ("starcall", "vite", U)),
+             ("param", "b", ("bin", "add", ("tidx", U, L(2)), ("tidx", U, L(0))))],
+            [("let", "u", ("tuni", kind, [[X], [("drange", L(2), Y)]])), ("param", "a", ("starcall", "vmin", U)), ("param", "b", ("tidx", U, L(0)))],
+        ]
+    V = ("vec", X, Y)
+    bodies += [
+        [("param", "a", ("vattr", V, "x")), ("param", "b", ("vattr", ("vadd", V, ("vec", L(1), X)), "y"))],
+        [("let", "w", ("drange", L(0), L(1))), ("param", "a", ("vattr", ("vsub", ("vec", ("var", "w"), Y), V), "x")),
+         ("param", "b", ("vattr", ("vec", ("var", "w"), ("drange", L(0), X)), "x"))],
+        [("param", "p", X), ("let", "z", ("drange", L(0), ("gparam", "p"))), ("param", "a", ("var", "z")),
+         ("param", "b", ("bin", "add", ("gparam", "p"), Y))],
+        [("objecttup", "t", [X, ("bin", "add", X, Y)]), ("param", "a", ("tlit", [Y, X], 1)), ("param", "b", Y)],
+        [("objecttup", "l", [Y, ("uniform", [X, Y])]), ("objecttup", "t", [("resample", Y)]), ("param", "a", X), ("param", "b", L(1))],
+    ]
+    A, B = ("gparam", "a"), ("gparam", "b")
+    conds = [None, ("cmp", "lt", A, B), ("cmp", "ne", A, B), ("or", ("cmp", "ge", A, L(2)), ("cmp", "eq", B, L(1)))]
+    out = []
+    for hd in heads:
+        for bd in bodies:
+            for cd in conds:
+                for pr in (None, Fraction(1, 2)) if cd is not None else (None,):
+                    for rebind in (False, True) if cd is not None else (False,):
+                        ast = list(hd) + list(bd)
+                        if cd is not None:
+                            ast.append(("require", pr, cd))
+                        if rebind:
+                            ast.append(("let", "x", DR(5, 6)))
+                            ast.append(("let", "u", DR(5, 6)))
+                        try:
+                            prog, info = to_prog(ast, 1)
+                        except IllFormed:
+                            continue
+                        if info["branches"] > 1500:
                             continue
                         cells = 2 if pr is not None else 1
                         prog["maxIter"] = choose_max_iter(info, cells)
